@@ -50,6 +50,13 @@ GS_early == [r \in Two |-> IF r = 1 THEN <<Ret(3)>>
 UnfairSpec == Init /\ [][Next]_vars /\ WF_vars(Progress)
               /\ \A r \in RPCs : WF_vars(DrvOK /\ CliOpStart(r)) /\ WF_vars(DrvOK /\ SrvOpStart(r))
 
+\* headers and trailers: SetHeader, SendHeader before the first reply, SetTrailer; the caller reads Header and Trailer
+Meta(o, i) == [op |-> o, n |-> i, code |-> 0]
+G_meta == [r \in One |-> <<Op("new"), Snd(1), Op("half"), Op("header"), Op("recv"), Op("recv"), Op("trailer")>>]
+GS_meta == [r \in One |-> <<Op("recv"), Meta("sethdr", 1), Meta("sendhdr", 2), Snd(1), Meta("settrl", 3), Meta("sethdr", 1), Op("recv"), Ret(0)>>]
+G_meta2 == [r \in One |-> <<Op("new"), Op("header"), Snd(1), Op("half"), Op("recv"), Op("trailer"), Op("recv"), Op("trailer")>>]
+GS_meta2 == [r \in One |-> <<Meta("sethdr", 1), Meta("settrl", 3), Op("recv"), Snd(2), Meta("sendhdr", 2), Ret(5)>>]
+
 NoFaults == {}
 CancelOnly == {"cancel"}
 CloseOnly == {"close"}
